@@ -79,7 +79,12 @@ def run_case(case: dict) -> dict:
                 pm.cob_id = 0x201
                 pm.on_message(0x201, bytearray(op["d"]), 1.0)
             elif how == "inplace":
-                pm.data[:] = bytes(op["d"])
+                try:
+                    pm.data[:] = bytes(op["d"])
+                except TypeError:       # the map's buffer must stay writable whatever happened before
+                    ev.append({"e": "write", "i": 1, "v": {"k": "none"}, "ok": False, "after": B(pm.data),
+                               "repr": "the data buffer of the map is not writable"})
+                    pm.data = bytearray(op["d"])
             else:
                 pm.data = bytearray(op["d"])
             ev.append({"e": "setframe", "d": list(op["d"]), "how": how})
